@@ -55,8 +55,10 @@ func c14RandChunks(rnd *rand.Rand, max int) []c14Chunk {
 		c.Hlevel = rnd.Intn(4)
 		c.Pstart = rnd.Intn(4)
 		c.Pend = c.Pstart + rnd.Intn(3)
-		c.Index = i
-		c.Total = []int{0, m}[rnd.Intn(2)]
+		// a chunk's own index is independent of where it stands in the collection: merged
+		// documents restart at 0, reordered and filtered collections keep the original values
+		c.Index = []int{0, 0, i, m - 1 - i, rnd.Intn(5)}[rnd.Intn(5)]
+		c.Total = []int{0, m, 7}[rnd.Intn(3)]
 		c.Level = rnd.Intn(4)
 		if rnd.Intn(3) == 0 {
 			c.Parent = []string{"i1"}
@@ -270,9 +272,37 @@ func c14Record(in, out string) error {
 				}
 			}
 			fields := c14FieldLists[cfg.Fields]
+			if mode != "filter" && rnd.Intn(4) == 0 {
+				// export what a filter chain selects from the collection
+				for n := range cs {
+					cs[n].Text = c14FilterText(rnd)
+				}
+				for n := 1 + rnd.Intn(2); n > 0; n-- {
+					preds = append(preds, c14RandPred(rnd))
+				}
+			}
 			events = append(events, Event{"event": "Begin", "mode": mode, "chunks": cs, "fmt": f, "cfg": cfg, "size": size, "preds": preds})
 			chunks := c14MakeChunks(cs)
 			embs := c14Embeddings(cs)
+			if mode != "filter" && len(preds) > 0 {
+				cur := rag.NewChunkCollection(chunks)
+				for _, p := range preds {
+					cur, _ = c14ApplyPred(cur, p)
+				}
+				pos := map[*rag.Chunk]int{}
+				for n, ch := range chunks {
+					pos[ch] = n
+				}
+				var fe [][]float64
+				for _, ch := range cur.Chunks {
+					fe = append(fe, embs[pos[ch]])
+				}
+				chunks, embs = cur.Chunks, fe
+				if mode == "batch" {
+					size = 1 + rnd.Intn(len(chunks)+1)
+					events[len(events)-1]["size"] = size
+				}
+			}
 			evals++
 			logRecs := func(name string, extra Event, obs []c14Obs, err error) {
 				ev := Event{"event": name}
